@@ -133,10 +133,12 @@ def check_encoding(idx, name, form, T, v, e, tier, R):
                 R.evaluations += 1
                 if k:
                     R.nontrivial((e, k, 'nb', decname, use_spec))
-                ev = nonblocking(decname, prefix, spec)
+                ev, partial = nonblocking(decname, prefix, spec)
                 bad = judge_nb(ev)
                 if bad:
                     site = ev[-1][2] if ev and ev[-1][0] == 'exc' else 'streaming'
+                    if partial:
+                        base = base | {'partial_read_at_eof'}
                     R.violation('nb.' + bad[0], dict(rec, presentation='nonblocking'),
                                 bad[1] + ' | events=' + ' '.join(x[0] + (':' + x[1] if x[0] == 'exc' else '') for x in ev),
                                 'underrun, underrun, then EndOfStreamError', site, base | {'as:nonblocking'}, idx)
@@ -161,7 +163,7 @@ def nonblocking(decname, prefix, spec):
     try:
         it = iter(STREAMERS[decname](s, asn1Spec=spec))
     except Exception as e:
-        return [('exc', type(e).__name__, pyasn1_site(e))]
+        return [('exc', type(e).__name__, pyasn1_site(e))], False
     polls = 0
     for step in range(8):
         try:
@@ -183,7 +185,8 @@ def nonblocking(decname, prefix, spec):
             core.eof_pending = 0       # the stream is closed now
     else:
         events.append(('livelock',))
-    return events
+    # did the closed stream keep answering with a non-empty but short read (known finding K6)?
+    return events, core.log.last_short
 
 
 def judge_nb(ev):
@@ -290,7 +293,7 @@ def replay(case):
     elif p == 'seekable':
         verdict, info = one_shot(case['dec'], ST.SeekableNB(ST.ScheduledCore(prefix)), spec)
     else:
-        ev = nonblocking(case['dec'], prefix, spec)
+        ev, partial = nonblocking(case['dec'], prefix, spec)
         bad = judge_nb(ev)
         return [{'clause': 'nb.' + bad[0], 'observed': bad[1], 'expected': 'underrun x2 then EndOfStreamError'}] if bad else []
     if verdict:
